@@ -25,11 +25,12 @@ def one(entry, n, it, cmp, elem, ub, budget):
 def queries(tier, prop='C06'):
     ub = prop == 'C02'; out = []
     q = tier == 'quick'
-    budget = 120 if q else 900
+    budget = 240 if q else 900
     def cap(e, it):   # largest length per entry and iterator kind (measured cost, see BOUNDS)
         if e == 'merge_sort': return (2 if q else 3) if it == 0 else (3 if q else 4)
         if e == 'exchange_sort': return (3 if q else 4) if it == 0 else (4 if q else 5)
-        if e == 'stable_partition': return 3 if q else 4
+        if e == 'stable_partition': return ((2 if q else 3) if it == 0 else (3 if q else 4))
+        if e == 'partial_sort' and it == 4 and q: return 3
         if e == 'gnome_sort' and it == 2: return 3 if q else 4
         if e in LINEAR: return 4 if q else 6
         if e == 'bubble_sort' and it == 0: return 3   # pointer '<' over CBMC's address model: see ASSUMPTIONS
